@@ -576,8 +576,10 @@ func errEdges(fn *ssa.Function, call ssa.Instruction, wantNil bool) []core.Edge 
 	return out
 }
 
-func errNonNilEdges(fn *ssa.Function, call ssa.Instruction) []core.Edge { return errEdges(fn, call, false) }
-func errNilEdges(fn *ssa.Function, call ssa.Instruction) []core.Edge    { return errEdges(fn, call, true) }
+func errNonNilEdges(fn *ssa.Function, call ssa.Instruction) []core.Edge {
+	return errEdges(fn, call, false)
+}
+func errNilEdges(fn *ssa.Function, call ssa.Instruction) []core.Edge { return errEdges(fn, call, true) }
 
 // checkCacheErrorDiscipline (E12a): on the serving path, no caller drops the
 // error of a cache load/read/write, except the allow-table.
@@ -585,7 +587,7 @@ func checkCacheErrorDiscipline(p *core.Prog, r *core.Report) {
 	watched := map[string]bool{"Load": true, "ReadFile": true, "Save": true, "Write": true, "WriteObject": true, "Unmarshal": true, "UnmarshalFast": true,
 		"ExistsFullKV": true, "ExistsPartialKV": true, "ListSnapshotFiles": true, "FileExists": true, "OpenObject": true, "DeleteStore": true}
 	allow := map[string]string{
-		"(*storage/execout.FileWalker).preload$1→Load":   "prefetch only: the result is not used, the consumer loads the file again and handles its error",
+		"(*storage/execout.FileWalker).preload$1→Load":        "prefetch only: the result is not used, the consumer loads the file again and handles its error",
 		"(*pipeline.Stores).saveStoresSnapshots→ExistsFullKV": "an existence-probe error is treated as absent: the snapshot is simply written again",
 	}
 	inScope := func(fn *ssa.Function) bool {
